@@ -105,6 +105,31 @@ func genCtx(seed uint64, tier string) *Scenario {
 			sc.Vars[i] = VarSpec{Form: 1, Words: w, Exp: int32(len(x.String()) + r.rangeI(-7, 7)), Prec: uint32(len(w) * wordDigits)}
 		}
 	}
+	// far-apart operands: sums and differences whose smaller term lies tens of
+	// thousands of digits below the larger one (only a sticky digit, but on which side?)
+	farFocus := !focus && !sqrtFocus && r.chance(0.006)
+	if farFocus {
+		sc.Far = true
+		gap := r.rangeI(6100, 90000)
+		if r.chance(0.5) {
+			gap = r.rangeI(65000, 70000)
+		}
+		sc.Vars[0].Form, sc.Vars[1].Form = 1, 1
+		if len(sc.Vars[0].Words) == 0 {
+			sc.Vars[0].Words = r.genWords(1, 2)
+		}
+		if len(sc.Vars[1].Words) == 0 {
+			sc.Vars[1].Words = r.genWords(1, 4)
+		}
+		if r.chance(0.5) {
+			sc.Vars[0].Words = r.genWords(r.rangeI(1, 3), 2) // a power of ten: borrows run to the top
+		}
+		sc.Vars[0].Exp = int32(r.rangeI(-5, 5))
+		sc.Vars[1].Exp = sc.Vars[0].Exp - int32(gap)
+		if int(sc.Ctx.Prec) > 200 || sc.Ctx.Prec == 0 {
+			sc.Ctx.Prec = uint(r.pick(1, 2, 5, 19, 20, 34, 57))
+		}
+	}
 	n := r.rangeI(3, 25)
 	var ts TaskSpec
 	for i := 0; i < n; i++ {
@@ -118,6 +143,7 @@ func genCtx(seed uint64, tier string) *Scenario {
 		case k < 82:
 			op.Name = "c.SetPrec"
 			op.I = int64(r.genPrec(r.pick(1, 2, 4), true))
+
 		case k < 87:
 			op.Name = "c.SetMode"
 			op.M = r.intn(6)
@@ -149,6 +175,15 @@ func genCtx(seed uint64, tier string) *Scenario {
 				if op.Name == "c.FMA" {
 					op.A = append(op.A, r.intn(2)) // (never the receiver: the property's precondition)
 				}
+			}
+		}
+		if farFocus && nv > 2 && r.chance(0.7) {
+			op = Op{ID: i, Name: r.pickS("c.Sub", "c.Sub", "c.Add", "c.FMA", "c.SetMode"), Z: r.rangeI(2, nv-1), A: [][]int{{0, 1}, {1, 0}}[r.intn(2)]}
+			switch op.Name {
+			case "c.FMA":
+				op.A = []int{0, 0, 1}
+			case "c.SetMode":
+				op = Op{ID: i, Name: "c.SetMode", Z: -1, M: r.intn(6)}
 			}
 		}
 		if sqrtFocus && nv > 2 {
